@@ -93,8 +93,8 @@ CLAIMED = {
     "C13": dict(
         engine="E2-logged-real-spawns",
         technique="Coq proof (structural induction over composition expressions; induction over the spawn loop for the wiring; induction over the stage list for the data flow) + real pipelines of tagging stages in every composition shape, the children's descriptor tables compared by inode with the extracted model's wiring, outputs / stderr lines / statuses monitored",
-        text="Theorems C13_*: however nested (a|b, p|e, p|q at every split, from_exec_iter), the stage list is the commands in reading order (>= 2); for every number n of plain stages Pipeline::popen gives stage 0 the pipeline's stdin, stage n-1 the pipeline's stdout, connects stage i's stdout to a fresh pipe whose read end is stage i+1's stdin, and leaves argv and stderr of every command its own; evaluating the stages as functions along that wiring yields their composition in order applied to the pipeline's input.",
-        note="Trusted: as C06.  Stderr 'no line lost', the returned status being the last stage's and 'only after all commands have exited' are monitored on the real runs (kernel O_APPEND/PIPE_BUF atomicity and Popen::drop's wait are involved), not separate theorems; the wait-for-all part is C12_nondetached_waits_for_all (HJoinPipe).  Pipeline|Pipeline keeps only the right operand's stdout setting (modelled).",
+        text="Theorems C13_*: however nested (a|b, p|e, p|q at every split, from_exec_iter), the stage list is the commands in reading order (>= 2); for every number n of plain stages Pipeline::popen gives stage 0 the pipeline's stdin, stage n-1 the pipeline's stdout, connects stage i's stdout to a fresh pipe whose read end is stage i+1's stdin, and leaves argv and stderr of every command its own; with stderr_to(f) every command's stderr is the one file f (a command with its own stderr setting makes the call panic, never a silent override), with capture/communicate every stderr is the capture pipe and the last stdout is piped; evaluating the stages as functions along that wiring yields their composition in order applied to the pipeline's input; join and capture report the status of command n-1 (an error, never a status, when some command cannot be started), and join's actions contain a wait for every command.",
+        note="Trusted: as C06.  Stderr 'no line lost' is, in the model, 'all stages write the same open file'; that concurrent appends of short lines to one open file description do not overwrite each other is the kernel's (monitored on the real runs: every stage's two lines must arrive).  The status index of pjoin/pcapture is tied to the real return value per scenario (distinct exit codes per stage).  Pipeline|Pipeline keeps only the right operand's stdout setting (modelled).",
         design="5/C13"),
     "C14": dict(
         engine="E2-logged-real-spawns",
